@@ -1,0 +1,71 @@
+//go:build verif && (amd64 || arm64 || s390x || ppc64le) && !purego
+
+package sm2ec
+
+// VerifFel applies one field or scalar-field primitive of the assembly backend to raw 256-bit
+// operands given as big-endian bytes (residues in the Montgomery domain where the primitive works
+// there; nothing is converted or reduced here). alias selects the result operand: 0 a fresh
+// element, 1 the first operand, 2 the second operand. n is the repeat count of the squarings and
+// the condition of negcond. It exists for the external verification harness only.
+func VerifFel(op string, a, b *[32]byte, n, alias int) (out [32]byte, flag int) {
+	if len(op) > 3 && op[:3] == "ord" {
+		x, y, res := new(p256OrdElement), new(p256OrdElement), new(p256OrdElement)
+		p256OrdBigToLittle(x, a)
+		p256OrdBigToLittle(y, b)
+		switch alias {
+		case 1:
+			res = x
+		case 2:
+			res = y
+		}
+		switch op {
+		case "ordmul":
+			p256OrdMul(res, x, y)
+		case "ordsqr":
+			p256OrdSqr(res, x, n)
+		case "ordreduce":
+			*res = *x
+			p256OrdReduce(res)
+		case "ordadd":
+			p256OrdAdd((*[4]uint64)(res), (*[4]uint64)(x), (*[4]uint64)(y))
+		default:
+			panic("sm2ec: unknown verification primitive " + op)
+		}
+		p256OrdLittleToBig(&out, res)
+		return
+	}
+	x, y, res := new(p256Element), new(p256Element), new(p256Element)
+	p256BigToLittle(x, a)
+	p256BigToLittle(y, b)
+	switch alias {
+	case 1:
+		res = x
+	case 2:
+		res = y
+	}
+	switch op {
+	case "mul":
+		p256Mul(res, x, y)
+	case "sqr":
+		p256Sqr(res, x, n)
+	case "add":
+		p256Add(res, x, y)
+	case "frommont":
+		p256FromMont(res, x)
+	case "negcond":
+		*res = *x
+		p256NegCond(res, n)
+	case "inverse":
+		p256Inverse(res, x)
+	case "sqrt":
+		if p256Sqrt(res, x) {
+			flag = 1
+		}
+	case "lessthanp":
+		flag = p256LessThanP(x)
+	default:
+		panic("sm2ec: unknown verification primitive " + op)
+	}
+	p256LittleToBig(&out, res)
+	return
+}
